@@ -49,6 +49,7 @@ SYMS = ["A", "b_c", "1", "-2.5", "1.0.0", "true", '"q s"', '"', "$V", "[", "]", 
         "\n", "\t", "```", "===D===", "===END===", "---", "//c", "\\"]
 
 
+TOKEN_CONTEXTS = ["K::@@", "K::[@@", "K::[@@]\n", "K::[a,@@,b]\nL::1\n", "META:\n  K::[@@]\n", "K:\n  @@\n", "===D===\nK::[\n  a,\n@@\n  b\n]\n===END===\n"]
 SYMS_NOT_IN_LEN5 = {"b_c", "-2.5", "  ", "$V", "@", "A<b"}
 
 
@@ -224,6 +225,23 @@ def shard_tokens(ctx: Ctx, sh: int, nshards: int, max_len: int, sample: int) -> 
                     st.samples.append({"text": text})
             for sig, det in fails:
                 st.fail(sig, {"kind": "tokens", "syms": list(tup)}, det)
+    # the same sequences where a VALUE is expected: after an assignment operator, as the items of a list (closed and left
+    # open), inside META, and as the body of a block (<= 2 symbols; thorough <= 3) - a bare sequence at column 0 never puts
+    # an envelope line, a separator or an operator in value position
+    for ln in range(1, (2 if ctx.tier != "thorough" else 3) + 1):
+        for tup in itertools.product(range(n), repeat=ln):
+            for cj in range(len(TOKEN_CONTEXTS)):
+                i += 1
+                if i % nshards != sh:
+                    continue
+                text = TOKEN_CONTEXTS[cj].replace("@@", "".join(SYMS[k] for k in tup))
+                fails, nt = check_text(text, st, None)
+                st.evaluations += 1
+                st.labels["tokseq_in_value_context"] += 1
+                if nt:
+                    st.nontrivial_exact += 1
+                for sig, det in fails:
+                    st.fail(sig, {"kind": "tokens", "syms": list(tup), "ctx": cj}, det)
     if ctx.tier == "thorough":
         # the listed bound: every sequence of exactly 5 symbols over a 30-symbol alphabet (24.3 M; the six symbols left out
         # are variants of kept ones: a second identifier, number, blank run, the variable, @ and the open annotation)
@@ -851,6 +869,8 @@ def check_case(case) -> list[Failure]:
                     return [Failure(f"C20:unlisted:octave_write:raised-in-history:{bucket(e)}", case, repr(e))]
         return []
     text = "".join(SYMS[i] for i in case["syms"]) if k == "tokens" else case["text"]
+    if k == "tokens" and case.get("ctx") is not None:
+        text = TOKEN_CONTEXTS[case["ctx"]].replace("@@", text)
     with scratch_dir() as scratch:
         _SCRATCH[0] = scratch
         fails, _ = check_text(text, None, None)
